@@ -11,6 +11,7 @@ CONSTANTS
   DevKeyId = FALSE
   DevDelCertView = FALSE
   DevCertObj = FALSE
+  DevEmptyObj = FALSE
 INVARIANT MappingViews
 INVARIANT Containment
 INVARIANT AtMostOneDefault
